@@ -39,8 +39,8 @@ CHECKS = {
              "remaining time or the cap) and three scale obligations that let TLC evaluate the operators at 16 ticks per unit instead "
              "of 2^60 ns. TLC evaluates them on boundary vectors (timestamps 0, +-1, +-7, +-8, +-9, +-20 units of 2^60 ns around now "
              "with +-1 ns offsets, thresholds from MinInt64 to MaxInt64, no-peer / not-synced flags); every vector is converted to "
-             "time.Time / time.Duration and run through the real SyncedToEmit / DetectParallelInstance in six representations of the "
-             "same instants (location, monotonic reading, construction; unset timestamps = the zero instant in five "
+             "time.Time / time.Duration and run through the real SyncedToEmit / DetectParallelInstance in nine representations of the "
+             "same instants (location, monotonic reading, construction, origin moved to before the zero instant of time.Time; unset timestamps = the zero instant in five "
              "representations); the set of distinct verdicts/waits must be the singleton TLC gives.",
         note="The specification is proved symbolically, the code is bound to it by boundary vectors only (each timestamp alone, "
              "pairs, triples in the thorough tier): a defect confined to unsampled timestamps is not detected. No peer / sync "
